@@ -185,6 +185,29 @@ Fixpoint locate (loc : N) (ms : list meaning) : list (N * cfi) :=
   | MInsn i :: r => (loc, i) :: locate loc r
   end.
 
+(* ---- the encoding of a location advance, as a function of the factored delta ---- *)
+Fixpoint le_enc (n : nat) (v : N) : list byte :=
+  match n with O => [] | S k => n2b v :: le_enc k (v / 256) end.
+Definition enc_num (n : nat) (be : bool) (v : N) : list byte :=
+  if be then rev (le_enc n v) else le_enc n v.
+
+Definition adv_enc (be : bool) (delta : N) : list byte :=
+  if delta <? 64 then [n2b (64 + delta)]                    (* DW_CFA_advance_loc | delta *)
+  else if delta <? 256 then [x02; n2b delta]                (* DW_CFA_advance_loc1 *)
+  else if delta <? 65536 then x03 :: enc_num 2 be delta     (* DW_CFA_advance_loc2 *)
+  else x04 :: enc_num 4 be delta.                           (* DW_CFA_advance_loc4 *)
+
+(* ---- the order in which a table is emitted ----
+   refs = the CIE index of every FDE in insertion order; each CIE is emitted immediately before the first
+   FDE that refers to it and never again. *)
+Inductive item : Type := ICie (idx : nat) | IFde (k : nat).
+Fixpoint plan (seen : list nat) (k : nat) (refs : list nat) : list item :=
+  match refs with
+  | [] => []
+  | idx :: r =>
+      (if existsb (Nat.eqb idx) seen then [] else [ICie idx]) ++ IFde k :: plan (idx :: seen) (S k) r
+  end.
+
 (* ---- the Rust operand types, as predicates ---- *)
 Definition is_u8 (n : N) : bool := n <? 256.
 Definition is_u16 (n : N) : bool := n <? 65536.
